@@ -129,11 +129,17 @@ def u_set_cookie(c):
     h = W.RequestHandler.__new__(W.RequestHandler)
     given = []
 
+    stored = []
+
     class Morsel(dict):
         def __setitem__(self, k, v):
             given.append((k, v))
 
+        def OutputString(self, attrs=None):
+            return "n=v"        # the rendering is the cookie library's (exercised by the stand-in and by C25); set_cookie validates it as a header value
+
     class Jar:
+        """http.cookies.SimpleCookie double: set_cookie builds the cookie in one jar and records the finished morsel in the handler's jar"""
         def __init__(self):
             self.m = {}
 
@@ -141,6 +147,9 @@ def u_set_cookie(c):
             return False
 
         def __setitem__(self, k, v):
+            if isinstance(v, Morsel):
+                stored.append((k, v))
+                return
             given.append(("<name>", k))
             given.append(("<value>", v))
             self.last = Morsel()
@@ -165,9 +174,10 @@ def u_set_cookie(c):
     c.only_raises(out, (ValueError, http.cookies.CookieError))
     if out.raised:
         c.cover("set_cookie/rejected")
-        c.oblige("rejected-cookie-stores-nothing", given == [])
+        c.oblige("rejected-cookie-stores-nothing", stored == [])
         return
     c.cover("set_cookie/accepted")
+    c.oblige("the-finished-cookie-is-recorded-exactly-once-under-its-name", len(stored) == 1 and stored[0][0] is name)
     unq = re.compile(r"[^\x00-\x20;\x7f]*")
     c.oblige("name-free-of-controls-space-and-semicolon", regex.in_lang(name, unq) if c.symbolic else unq.fullmatch(name) is not None)
     c.oblige("value-free-of-controls-and-space", regex.in_lang(value, re.compile(r"[^\x00-\x20]*")) if c.symbolic
